@@ -831,6 +831,18 @@ def loop_condition_hybrids(ast, routine_names=()):
     return out
 
 
+def valueless_hybrid_statements(ast, routine_names=()):
+    """expression statements whose value is dropped (root has no effect) but which contain an operation with an effect"""
+    out = []
+    for n in subterms(ast):
+        if isinstance(n, tuple) and n and n[0] == 'expr' and isinstance(n[1], tuple) and n[1][0] in ('bin', 'un', 'cast', 'cond'):
+            for x in subterms(n[1]):
+                if isinstance(x, tuple) and x and (x[0] in ('post', 'pre', 'stmtexpr') or (x[0] == 'call' and x[1] in routine_names)):
+                    out.append(n[1])
+                    break
+    return out
+
+
 def redeclared_locals(ast):
     """names declared more than once anywhere in the behaviour -> {name: set of declared types}"""
     out = {}
